@@ -338,6 +338,7 @@ fn selftest(args: &[String]) -> i32 {
         mutations: vec![],
         schedule: vec![],
         triggers: vec![],
+        lazy: false,
     };
     let mut env = Env::new(scratch_root(&scratch, 0));
     let mut seqs: Vec<Vec<String>> = Vec::new();
